@@ -253,6 +253,28 @@ Theorem C15_gsub_im_nonpositive :
 Proof. exact gsub_im_nonpositive. Qed.
 Print Assumptions C15_gsub_im_nonpositive.
 
+(* ---- round 6 *)
+
+(* %bxy: the closing delimiter is tested first, so %bxx matches x...x up to the next x *)
+Theorem C15_balanced_close_first : forall x r c0, bal x x (x :: r) 1 c0 = (true, c0 + 1).
+Proof. exact balanced_close_first. Qed.
+Print Assumptions C15_balanced_close_first.
+
+Theorem C15_balanced_same_delims_spec :
+  forall ea s x i c rest, (exists r, suffix s i = x :: x :: r) ->
+  M ea s (IBalanced x x :: rest) i c = M ea s rest (i + 2) c.
+Proof. exact balanced_same_delims_spec. Qed.
+Print Assumptions C15_balanced_same_delims_spec.
+
+(* matching work is charged: steps + bytes looked at <= Phi + (2(|items|+2)+1) * ticks
+   (a back-reference comparison now charges its length) *)
+Theorem C15_work_charged :
+  forall items ea s f u st o u' n,
+  runs items ea s f u st = (o, u', n) ->
+  Z.of_nat n + (u' - u) <= Phi items st + (2 * (Z.of_nat (length items) + 2) + 1) * (u' - u).
+Proof. exact work_charged. Qed.
+Print Assumptions C15_work_charged.
+
 (* ---- refuted on the code as it stands (faithful IM; witness replayed on Go) *)
 
 (* gsub of matching.go counts an empty match that it skips (pinned by the suite) *)
